@@ -37,6 +37,9 @@ enum Op {
     GetOutpoints,
     Fork,
     Swap,
+    CloneFrom, // tx.clone_from(&other)
+    Assign,    // tx = other.clone()
+    MemSwap,   // std::mem::swap(&mut tx, &mut other)
     New(u32, u32),
     Default,
     Reparse(u8), // 0 bytes, 1 hex, 2 JSON, 3 CBOR
@@ -114,6 +117,9 @@ fn parse_op(s: &str) -> Option<Op> {
         ("go", 1) => Op::GetOutpoints,
         ("fk", 1) => Op::Fork,
         ("sw", 1) => Op::Swap,
+        ("cf", 1) => Op::CloneFrom,
+        ("as", 1) => Op::Assign,
+        ("ms", 1) => Op::MemSwap,
         ("new", 3) => Op::New(num(f[1])?, num(f[2])?),
         ("def", 1) => Op::Default,
         ("fb", 1) => Op::Reparse(0),
@@ -190,6 +196,21 @@ pub fn run(op: &str, args: &[String]) -> Option<String> {
             Op::Swap => {
                 if let Some(o) = other.take() {
                     other = Some(std::mem::replace(&mut tx, o));
+                }
+            }
+            Op::CloneFrom => {
+                if let Some(o) = &other {
+                    tx.clone_from(o);
+                }
+            }
+            Op::Assign => {
+                if let Some(o) = &other {
+                    tx = o.clone();
+                }
+            }
+            Op::MemSwap => {
+                if let Some(o) = other.as_mut() {
+                    std::mem::swap(&mut tx, o);
                 }
             }
             Op::New(v, lt) => tx = Transaction::new(v, lt),
